@@ -89,30 +89,30 @@ Theorem C09_region_bottom_inside : forall rows last, 0 < rows -> 0 <= last <= ro
 Proof. exact bottom_inside. Qed.
 
 (* ---- subtitle numbers -------------------------------------------------------------------------------------------- *)
-(* `tti.SN is not self.last_sn` behaves as `!=` unless a paragraph-opening block repeats a subtitle number above 256 *)
-Theorem C09_sn_value_partial : forall file cfg, trigger_sn_identity file cfg = false -> reader_model file cfg = reader_gen false file cfg.
-Proof. exact sn_value_partial. Qed.
+(* subtitle numbers are compared by value (repaired by 434048d; formerly finding sn-identity): a block opens a new
+   paragraph exactly when its number differs from the number of the last paragraph opened *)
+Theorem C09_sn_value : forall sn last, sn_differs sn last = true <-> last <> Some sn.
+Proof. exact sn_value. Qed.
 
 (* ---- grouping and the single subtitle (stretch; statements about process_tti, the per-block step of the reader) ---- *)
 (* extension blocks are concatenated and user-data/reserved blocks skipped: after any run of non-terminal and skipped
    blocks, the field the terminal block is decoded from is the concatenation of the texts of the text-carrying blocks,
    as Tech 3264 cuts them (outside finding tf-strip-not-cut) *)
-Theorem C09_grouping_partial : forall identity f ts s t, st_in_ext s = false -> Forall ext_or_skip ts -> text_block t = true ->
+Theorem C09_grouping_partial : forall f ts s t, st_in_ext s = false -> Forall ext_or_skip ts -> text_block t = true ->
   Forall (fun x => trigger_strip (t_tf x) = false) (filter text_block (ts ++ [t])) ->
-  exists s', fold_blocks identity f s ts = inl s' /\
+  exists s', fold_blocks f s ts = inl s' /\
              fst (block_view f s' t) = concat (map (fun x => text_of_field (t_tf x)) (filter text_block (ts ++ [t]))).
 Proof. exact grouping_partial. Qed.
 (* a non-cumulative subtitle with a new number becomes a paragraph visible exactly from TCI to TCO minus the programme
    start, holding the pieces of its text field, aligned by JC, in the region of its VP *)
-Theorem C09_subtitle : forall f s t rows r,
-  text_block t = true -> t_ebn t = 255 -> t_cs t = 0 -> sn_is_not true (t_sn t) (st_last_sn s) = true ->
-  f_max_rows f = Some rows ->
+Theorem C09_subtitle : forall f s t r,
+  text_block t = true -> t_ebn t = 255 -> t_cs t = 0 -> st_last_sn s <> Some (t_sn t) ->
   let tf := acc_tf s ++ strip_8f (t_tf t) in
   let b := (offset_q (f_fps f) (t_tci t) - f_start f)%Q in
   let e := (offset_q (f_fps f) (t_tco t) - f_start f)%Q in
   q_neg b = false -> q_lt e b = false ->
-  region_for rows (t_vp t) tf (has_double_height_char tf) = Some r ->
-  exists s', process_tti true f s t = inl s' /\
+  region_for (f_max_rows f) (t_vp t) tf (has_double_height_char tf) = Some r ->
+  exists s', process_tti f s t = inl s' /\
     st_cur s' = Some (t_sgn t,
                       mkPara (fst (get_region (st_regions s) r)) (text_align_of (t_jc t))
                              (if f_teletext f && negb (has_double_height_char tf) then default_single_height_font_size_pct
@@ -122,9 +122,9 @@ Theorem C09_subtitle : forall f s t rows r,
     st_regions s' = snd (get_region (st_regions s) r).
 Proof. exact new_subtitle. Qed.
 (* subtitles that start before the programme start are dropped *)
-Theorem C09_early_dropped : forall identity f s t,
+Theorem C09_early_dropped : forall f s t,
   text_block t = true -> t_ebn t = 255 -> q_neg (offset_q (f_fps f) (t_tci t) - f_start f) = true ->
-  exists s', process_tti identity f s t = inl s' /\ st_divs s' = st_divs s /\ st_cur s' = st_cur s /\
+  exists s', process_tti f s t = inl s' /\ st_divs s' = st_divs s /\ st_cur s' = st_cur s /\
              st_regions s' = st_regions s /\ st_last_sn s' = st_last_sn s /\ st_in_ext s' = false.
 Proof. exact early_subtitle_dropped. Qed.
 (* cumulative subtitles accumulate in the open paragraph, each on its own interval *)
@@ -134,7 +134,7 @@ Theorem C09_cumulative : forall f s t sgn p,
   let b := (offset_q (f_fps f) (t_tci t) - f_start f)%Q in
   let e := (offset_q (f_fps f) (t_tco t) - f_start f)%Q in
   q_neg b = false -> q_lt e b = false ->
-  exists s', process_tti true f s t = inl s' /\
+  exists s', process_tti f s t = inl s' /\
     st_cur s' = Some (sgn, mkPara (p_region p) (p_align p) (p_font_size p) (p_line_height p) (p_time p)
                                   (p_items p ++ [PSub b e (tf_model (decoder_of_cct (f_cct f)) (f_teletext f) tf ++
                                                            (if t_cs t =? 2 then [LBr] else []))])) /\
@@ -146,6 +146,20 @@ Example C09_example_tf :
   map piece_of_leaf (tf_model decode6937 true [13; 3; 200; 97; 32; 98; 138; 138; 128; 99; 143; 100]) =
   [Run (mkAttrs 4294902015 255 false false) [228; 32; 98]; Break; Run (mkAttrs 4294967295 255 true false) [99]].
 Proof. vm_compute. reflexivity. Qed.
+(* the inputs of the three repaired defects (9e84fe8, 41b1329, 434048d) are now read as the specification prescribes:
+   invalid TCP -> no shift, invalid MNR -> 23 rows, a repeated subtitle number above 256 re-uses the paragraph *)
+Example C09_example_tcp_fallback :
+  paragraphs_of (reader_model (put 256 [48; 48; 48; 48; 88; 88; 48; 48] witness_gsi ++ witness_tti 0 1 2 20 0 0 [65])
+                              (mkConfig StTCP MrNone false false None)) = 1.
+Proof. vm_compute. reflexivity. Qed.
+Example C09_example_mnr_fallback :
+  paragraphs_of (reader_model (put 11 [48] (put 253 [88; 88] witness_gsi) ++ witness_tti 0 30 31 20 0 0 [65])
+                              (mkConfig StNone MrMNR false false None)) = 1.
+Proof. vm_compute. reflexivity. Qed.
+Example C09_example_sn_by_value :
+  paragraphs_of (reader_model (witness_gsi ++ witness_tti 300 1 2 20 0 0 [65] ++ witness_tti 300 3 4 20 0 0 [66]) cfg0) = 1 /\
+  paragraphs_of (reader_model (witness_gsi ++ witness_tti 5 1 2 20 0 0 [65] ++ witness_tti 5 3 4 20 0 0 [66]) cfg0) = 1.
+Proof. vm_compute. split; reflexivity. Qed.
 Example C09_example_region : region_for 23 20 [65; 138; 66] false = Some (mkRegion (qz 5) (qz 10) (qz 90) (qz 21 / qz 23 * qz 80)%Q true).
 Proof. reflexivity. Qed.
 
@@ -157,5 +171,5 @@ Print Assumptions C09_times_24.  Print Assumptions C09_times_25.  Print Assumpti
 Print Assumptions C09_offset_24.  Print Assumptions C09_offset_25.  Print Assumptions C09_offset_50.  Print Assumptions C09_offset_2997.
 Print Assumptions C09_offset_23976_partial.
 Print Assumptions C09_rows.  Print Assumptions C09_region.  Print Assumptions C09_region_top_inside.  Print Assumptions C09_region_bottom_inside.
-Print Assumptions C09_sn_value_partial.
+Print Assumptions C09_sn_value.
 Print Assumptions C09_grouping_partial.  Print Assumptions C09_subtitle.  Print Assumptions C09_early_dropped.  Print Assumptions C09_cumulative.
